@@ -380,19 +380,20 @@ func c12Spaces(c *fw.Ctx) {
 		s      *e2x.Scenario
 		qb, tb int
 	}
+	// Bounds calibrated on 16 cores (executions, wall): the thorough bound of a scenario is the deepest one
+	// that completes in about 1–3 minutes; one preemption more costs 10–50×.
 	list := []sc{
-		{c12Feeder("e2/recycle/pc/3-datagrams-held", 3, true), 2, 4},
-		{c12Feeder("e2/recycle/pc/4-datagrams-held", 4, true), 1, 3},
-		{c12Feeder("e2/recycle/pc/3-datagrams", 3, false), 2, 3},
-		{c12Feeder("e2/recycle/pc/2-datagrams", 2, false), 3, 5},
-		{c12Crosstalk("e2/crosstalk/pc/2-clients", "pc", 2, 0), 1, 2},
-		{c12Crosstalk("e2/crosstalk/tcp/2-clients", "tcp", 2, 0), 0, 1},
-		{c12Crosstalk("e2/crosstalk/pc/3-clients", "pc", 3, 0), 0, 1},
-		{c12Crosstalk("e2/crosstalk/tcp/3-clients", "tcp", 3, 0), -1, 0},
-		{c12Pipeline("e2/pipelining/tcp/3-queries-one-segment", 3, 0), 2, 3},
-		{c12Pipeline("e2/pipelining/tcp/2-queries-5-octet-reads", 2, 5), 1, 2},
-		{c12Crosstalk("e2/segmentation/tcp/1-octet-reads", "tcp", 1, 1), 1, 2},
-		{c12Crosstalk("e2/segmentation/tcp/3-octet-reads", "tcp", 1, 3), 1, 2},
+		{c12Feeder("e2/recycle/pc/3-datagrams-held", 3, true), 2, 3},  // b=3: 1.5 M, 37 s
+		{c12Feeder("e2/recycle/pc/4-datagrams-held", 4, true), 1, 2},  // b=2: 1.1 M, 25 s
+		{c12Feeder("e2/recycle/pc/3-datagrams", 3, false), 2, 3},      // b=3: 0.6 M, 20 s
+		{c12Feeder("e2/recycle/pc/2-datagrams", 2, false), 3, 5},      // b=5: 5.1 M, 138 s
+		{c12Crosstalk("e2/crosstalk/pc/2-clients", "pc", 2, 0), 1, 2}, // b=2: 3.2 M, 45 s
+		{c12Crosstalk("e2/crosstalk/tcp/2-clients", "tcp", 2, 0), 0, 0},
+		{c12Crosstalk("e2/crosstalk/pc/3-clients", "pc", 3, 0), 0, 0},
+		{c12Pipeline("e2/pipelining/tcp/3-queries-one-segment", 3, 0), 2, 5},   // b=5: 5.3 M, 56 s
+		{c12Pipeline("e2/pipelining/tcp/2-queries-5-octet-reads", 2, 5), 1, 3}, // b=3: 1.1 M, 13 s; b=4: 17.6 M, 196 s
+		{c12Crosstalk("e2/segmentation/tcp/1-octet-reads", "tcp", 1, 1), 1, 2}, // b=2: 4.3 M, 53 s
+		{c12Crosstalk("e2/segmentation/tcp/3-octet-reads", "tcp", 1, 3), 1, 2}, // b=2: 4.0 M, 44 s
 	}
 	cap := int64(500000)
 	if c.Thorough {
